@@ -515,7 +515,7 @@ func (s *session) exec(line string) (string, error) {
 		if !ok {
 			return "", shapef("struct %s has no Go field %s", toks[1], sd.Fields[idx].GoName)
 		}
-		return "ok " + strings.Replace(s.typeText(sf.Type), " ", " ", -1) + " tag=" + hx([]byte(sf.Tag)), nil
+		return "ok " + hx([]byte(sf.Tag)) + " " + s.typeText(sf.Type), nil
 	case "methods":
 		if len(toks) != 2 {
 			return "", bad("methods <Name>")
